@@ -8,6 +8,8 @@ wt = "/tmp/wt_verify"
 patch = os.path.join(src, "patch_%s.diff" % n)
 demo = os.path.join(src, "demo_%s.py" % n)
 env = dict(os.environ, PYTHONPATH=wt + "/src")
+if not os.path.isdir(wt):
+    subprocess.run(["git", "-C", "/repo", "worktree", "add", "-q", "--detach", wt, "HEAD"], check=True)
 def run_demo():
     p = subprocess.run(["/venv/bin/python", demo], env=env, capture_output=True, text=True, cwd=wt, timeout=900)
     return p.returncode, (p.stdout + p.stderr)[-600:]
